@@ -32,6 +32,7 @@ pub struct DebugServer {
     lsp: Arc<Mutex<LspContext>>,
     shutdown: Arc<AtomicBool>,
     thread: Option<JoinHandle<()>>,
+    port: Option<u16>,
 }
 
 impl DebugServer {
@@ -42,10 +43,12 @@ impl DebugServer {
             lsp,
             shutdown,
             thread: None,
+            port: None,
         }
     }
 
     pub fn start(&mut self, port: u16) -> MosResult<()> {
+        self.port = Some(port);
         let thread_shutdown = self.shutdown.clone();
         let lsp = self.lsp.clone();
         self.thread = Some(std::thread::spawn(move || {
@@ -64,10 +67,17 @@ impl DebugServer {
 
     pub fn join(self) -> MosResult<()> {
         self.shutdown.store(true, Ordering::Relaxed);
-        self.thread
-            .unwrap()
-            .join()
-            .expect("Could not join debugger thread");
+        let thread = self.thread.unwrap();
+
+        // The thread is most likely blocked waiting for a debugger to connect: connect to it ourselves so it gets to see the flag
+        while !thread.is_finished() {
+            if let Some(port) = self.port {
+                let _ = std::net::TcpStream::connect(("127.0.0.1", port));
+            }
+            std::thread::sleep(std::time::Duration::from_millis(10));
+        }
+
+        thread.join().expect("Could not join debugger thread");
         Ok(())
     }
 }
@@ -832,6 +842,8 @@ impl DebugSession {
                     Err(_) => break,
                 },
                 1 => {
+                    // (a selected operation has to be completed)
+                    let _ = oper.recv(lsp_shutdown_receiver.receiver());
                     log::trace!("Shutdown received from LSP.");
                     break;
                 }
